@@ -6,6 +6,8 @@ import (
 	"fmt"
 	"go/token"
 	"go/types"
+	"os"
+	"sort"
 	"strings"
 
 	"golang.org/x/tools/go/ssa"
@@ -291,6 +293,7 @@ func checkC18(c *Ctx) {
 			// staleness filter: a comparison of the remembered state time with the view's
 			// UpdatedAt whose "stale" edge cannot reach the move request
 			stale := false
+			viewCell := ""
 			for _, b := range entry.Blocks {
 				for _, in := range b.Instrs {
 					iff, ok := in.(*ssa.If)
@@ -303,14 +306,15 @@ func checkC18(c *Ctx) {
 					}
 					l, r := s.Args[0].Strip(), s.Args[1].Strip()
 					opName := s.Name
-					if r.IsField(canonTypeName(bot.Obj()), "lastGameStateTime") && l.Kind == "field" && l.Name == "UpdatedAt" {
+					if isViewTimeCell(r, entry, canonTypeName(bot.Obj())) && l.Kind == "field" && l.Name == "UpdatedAt" {
 						// `gs.UpdatedAt <= br.lastGameStateTime` is `br.lastGameStateTime >= gs.UpdatedAt`
 						l, r = r, l
 						opName = map[string]string{"<": ">", ">": "<", "<=": ">=", ">=": "<="}[opName]
 					}
-					if !(l.IsField(canonTypeName(bot.Obj()), "lastGameStateTime") && r.Kind == "field" && r.Name == "UpdatedAt") {
+					if !(isViewTimeCell(l, entry, canonTypeName(bot.Obj())) && r.Kind == "field" && r.Name == "UpdatedAt") {
 						continue
 					}
+					viewCell = l.String()
 					staleSucc := -1
 					// a view with the SAME time stamp as the one already acted on is stale too
 					switch opName {
@@ -331,11 +335,19 @@ func checkC18(c *Ctx) {
 			// … and the time of the view acted on is remembered before acting
 			var rem []ssa.Instruction
 			for _, ss := range p.Stores([]*ssa.Function{entry}) {
-				if ss.Owner == canonTypeName(bot.Obj()) && ss.Field == "lastGameStateTime" && ss.Val.Strip().Kind == "field" && ss.Val.Strip().Name == "UpdatedAt" {
+				if isViewTimeCell(ss.Addr, entry, canonTypeName(bot.Obj())) && (viewCell == "" || ss.Addr.Strip().String() == viewCell) && ss.Val.Strip().Kind == "field" && ss.Val.Strip().Name == "UpdatedAt" {
 					rem = append(rem, ss.Instr)
 				}
 			}
 			okRem := false
+			if os.Getenv("TABLELINT_DEBUG_C18") != "" {
+				fmt.Fprintf(os.Stderr, "C18 viewCell=%q rem=%d\n", viewCell, len(rem))
+				for _, ss := range p.Stores([]*ssa.Function{entry}) {
+					if ss.Val.Strip().Kind == "field" && ss.Val.Strip().Name == "UpdatedAt" {
+						fmt.Fprintf(os.Stderr, "  store %s = %s cell=%v\n", ss.Addr.Strip(), ss.Val.Strip(), isViewTimeCell(ss.Addr, entry, canonTypeName(bot.Obj())))
+					}
+				}
+			}
 			for _, r := range rem {
 				gds := p.Guards(r)
 				onlyHasState := nilGuard(gds, false, func(x *Sym) bool { return x.Kind == "field" && x.Name == "GameState" })
@@ -348,6 +360,59 @@ func checkC18(c *Ctx) {
 				}
 				if onlyHasState && blockReaches(r.Block(), ci.Block()) {
 					okRem = true
+				}
+			}
+			if !okRem && len(rem) > 1 {
+				// several remembering stores (one per kind of fresh view — a new hand, a newer state of the same hand)
+				// are as good as one when together they lie on every way to the move request that has a hand state
+				barrier := map[*ssa.BasicBlock]bool{}
+				for _, r := range rem {
+					barrier[r.Block()] = true
+				}
+				seen := map[*ssa.BasicBlock]bool{}
+				var walk func(b *ssa.BasicBlock) bool
+				walk = func(b *ssa.BasicBlock) bool {
+					if seen[b] || barrier[b] {
+						return false
+					}
+					seen[b] = true
+					if b == ci.Block() {
+						return true
+					}
+					for k, sc := range b.Succs {
+						if iff, isIf := b.Instrs[len(b.Instrs)-1].(*ssa.If); isIf && len(b.Succs) == 2 {
+							// the edge on which there is no hand state needs no remembering
+							noState := false
+							for _, g := range p.unfold(iff.Cond, k == 0, iff, 0) {
+								if cm := g.AsCmp(); cm != nil && cm.Op == token.EQL && (cm.R.IsNil() || cm.L.IsNil()) {
+									x := cm.L.Strip()
+									if cm.L.IsNil() {
+										x = cm.R.Strip()
+									}
+									if x.Kind == "field" && x.Name == "GameState" {
+										noState = true
+									}
+								}
+							}
+							if noState {
+								continue
+							}
+						}
+						if walk(sc) {
+							return true
+						}
+					}
+					return false
+				}
+				if !walk(entry.Blocks[0]) {
+					okRem = true
+				} else if os.Getenv("TABLELINT_DEBUG_C18") != "" {
+					var bl []int
+					for b := range seen {
+						bl = append(bl, b.Index)
+					}
+					sort.Ints(bl)
+					fmt.Fprintf(os.Stderr, "C18 rem=%d barrier=%v seen=%v target=%d\n", len(rem), barrier, bl, ci.Block().Index)
 				}
 			}
 			c.Check(okRem, "R6", "silence:view-time-remembered", where, "lastGameStateTime ← UpdatedAt for every non-stale view with a hand state, before the move request", "the bot does not remember the time of the view it acts on: the same view would be acted on again")
